@@ -69,6 +69,8 @@ def cases_c10(tier, seed):
     for sr in srs:
         for T in sb_durations:
             for vs in one + two:
+                if _sb_width(vs) > 16 and T >= 2 * _sb_period(vs):
+                    continue  # the block transition of >= 2 full periods would have > 2^24 entries
                 for gl in ([], [2]) if quick else ([], [3]):
                     cases.append(dict(kind="sb", sr=sr, duration=T, vars=[(n, tuple(l)) for n, l in vs], globals=gl, num_periods=[1, 2, 3] if quick else [1, 2, 3, 4]))
     if not quick:
@@ -98,6 +100,7 @@ def cases_c10(tier, seed):
         markov_functions=["sequential_sum_product", "naive_sequential_sum_product", "mixed_sequential_sum_product", "MarkovProduct eager / lazy+reinterpret / lazy+rename / eager-subs-into-lazy"],
         free_real_parameter="trans = tensor (prod_op | other op) Variable('w', Real), evaluated at w in {0.7, 1.9}; grid subset %s x %s" % (sub_pairs, sub_batches),
         lacking_step_variable="trans not mentioning p0 / c0 / last prev (subset grid)",
+        lag_model_size_bound="models whose block transition over >= 2 full periods would exceed 2^24 entries are skipped at those durations (two-variable models with lcm of lags 6)",
         lag_models="%d models: one variable with every lag set over {1,2,3}, two/three variables; globals 0-%d; num_periods %s" % (len(one + two), 1, "1..3" if quick else "1..4"),
         sarkka_bilmes_fold_precondition="explicit-fold oracle applies to models with at least one lag; lag-free transitions are checked against the plain product over time (documented degenerate behaviour)",
         nontrivial_rule="duration >= 2 and (some state size >= 2 | some lag present)",
@@ -107,11 +110,16 @@ def cases_c10(tier, seed):
     return _seeded(cases, seed), bounds, True
 
 
-def _sb_width(vs):
+def _sb_period(vs):
     period = 1
     for _, ls in vs:
         for k in ls:
             period = period * k // math.gcd(period, k)
+    return period
+
+
+def _sb_width(vs):
+    period = _sb_period(vs)
     w = 0
     for n, ls in vs:
         w += math.log2(max(n, 1)) * (2 * period + (max(ls) if ls else 0))
